@@ -258,3 +258,59 @@ def summarize(obs):
         c["trivial" if o.trivial else "nontrivial"] += 1
         c["solver_time_s"] += o.time
     return c
+
+
+def relate_sqrt_atoms(obs, rhos=(), assume=(), timeout=20.0, pool=None, log=None, seed=11, hint_env=None):
+    """Atom relation lemmas (DESIGN 2.5): for sqrt nodes n' (only in left sides) and n (in right sides) find and
+    *prove with the solver* relations n' = rho * n, rho in {1} + rhos (rho assumed positive by `assume`).
+    A numeric evaluation at one random point only selects which pairs to try.  Proven relations are returned as
+    SymBool equalities to be used as hypotheses; they are proved bottom-up so inner relations help outer ones."""
+    import random
+
+    from .sym import ONE, S, eq, evalf, mul, variables
+
+    pool = pool or solve.pool()
+    L_nodes = {n.nid: n for o in obs if o.cond is None for n in reachable([o.lhs]) if n.op == "sqrt"}
+    R_nodes = {n.nid: n for o in obs if o.cond is None for n in reachable([o.rhs]) if n.op == "sqrt"}
+    only_l = [n for k, n in sorted(L_nodes.items()) if k not in R_nodes]
+    cand_r = [n for k, n in sorted(R_nodes.items())]
+    if not only_l or not cand_r:
+        return []
+    rnd = random.Random(seed)
+    roots = only_l + cand_r + [S(r) for r in rhos] + [ONE]
+    env = {}
+    for v in variables(roots + [s for a in assume for s in bool_syms(a)]):
+        env[v.args[0]] = 0.3 + rnd.random()
+    env.update(hint_env or {})
+    try:
+        val = evalf(roots, env)
+    except Exception:
+        return []
+    proven = []
+    cands = [ONE] + [S(r) for r in rhos]
+    for n1 in only_l:
+        v1 = val.get(n1.nid)
+        if v1 is None or v1 != v1:
+            continue
+        found = False
+        for n2 in cand_r:
+            if found:
+                break
+            v2 = val.get(n2.nid)
+            if not v2 or v2 != v2:
+                continue
+            for rho in cands:
+                rv = val[rho.nid]
+                if abs(v1 - rv * v2) > 1e-9 * max(1.0, abs(v1)):
+                    continue
+                a1, a2 = n1.args[0], n2.args[0]
+                ob = Ob("lemma sqrt#%d = %s * sqrt#%d" % (n1.nid, rho, n2.nid), lhs=a1, rhs=mul(mul(rho, rho), a2),
+                        assume=list(assume) + proven)
+                discharge([ob], timeout=timeout, levels=(1, 2), pool=pool, keep_text=0)
+                if ob.verdict == "discharged":
+                    proven.append(eq(n1, mul(rho, n2)))
+                    found = True
+                    if log:
+                        log("  lemma proved: %s (%s)" % (ob.id, ob.level))
+                    break
+    return proven
